@@ -153,6 +153,11 @@ Proof.
   - (* if *)
     eapply post_bind; [apply (IH n); [lia|exact Hn']|]. intros a' Ha.
     eapply post_bind; [apply (IH n); [lia|exact Hn']|]. intros b' Hb. cbv beta in *; cbn [post td]; lia.
+  - (* range: an unsuffixed range takes the element type of the array; the node stays a leaf *)
+    repeat match goal with
+           | |- post _ (match ?x with _ => _ end) => destruct x
+           | |- post _ (if ?c then _ else _) => destruct c
+           end; try exact Hleaf; try exact I; cbn [post td]; lia.
 Qed.
 
 Lemma post_check_type f n e t : td e <= n -> n <= f -> post (fun e' => td e' <= n) (check_type f e t).
